@@ -259,6 +259,10 @@ pub enum DecompressBlockError {
         expected_len: usize,
         remaining_bytes: usize,
     },
+    LiteralsTooLarge {
+        regenerated_size: usize,
+        max: usize,
+    },
     DecompressLiteralsError(DecompressLiteralsError),
     LiteralsSectionParseError(LiteralsSectionParseError),
     SequencesHeaderParseError(SequencesHeaderParseError),
@@ -293,6 +297,14 @@ impl core::fmt::Display for DecompressBlockError {
             } => {
                 write!(f,
                     "Malformed section header. Says literals would be this long: {expected_len} but there are only {remaining_bytes} bytes left",
+                )
+            }
+            DecompressBlockError::LiteralsTooLarge {
+                regenerated_size,
+                max,
+            } => {
+                write!(f,
+                    "Literals section says it regenerates {regenerated_size} bytes, a block may contain at most {max} bytes",
                 )
             }
             DecompressBlockError::DecompressLiteralsError(e) => write!(f, "{e:?}"),
@@ -684,6 +696,7 @@ pub enum ExecuteSequencesError {
     DecodebufferError(DecodeBufferError),
     NotEnoughBytesForSequence { wanted: usize, have: usize },
     ZeroOffset,
+    BlockTooLarge { size: usize, max: usize },
 }
 
 impl core::fmt::Display for ExecuteSequencesError {
@@ -700,6 +713,12 @@ impl core::fmt::Display for ExecuteSequencesError {
             }
             ExecuteSequencesError::ZeroOffset => {
                 write!(f, "Illegal offset: 0 found")
+            }
+            ExecuteSequencesError::BlockTooLarge { size, max } => {
+                write!(
+                    f,
+                    "Sequences would regenerate at least {size} bytes, a block may contain at most {max} bytes"
+                )
             }
         }
     }
